@@ -163,8 +163,13 @@ def run(tier):
         if per_kind[k] <= (60 if tier == "quick" else 600):
             for o in OPTION_SETS:
                 extra.append(dict(c, opts=o))
+            # ... and with the schema supplied as introspection JSON (rejection must not depend on the schema's form)
+            if c["schema"] == "CORE":
+                extra.append(dict(c, json_schema=True))
     cases = cases + extra
-    reqs = [gen_request(c["sdl"], gql.render_doc(c["doc"]), dict(DEFAULT_OPTS, **c["opts"]) if c.get("opts") else None, tokens=False) for c in cases]
+    core_json = schema.introspection()
+    reqs = [gen_request(core_json if c.get("json_schema") else c["sdl"], gql.render_doc(c["doc"]), dict(DEFAULT_OPTS, **c["opts"]) if c.get("opts") else None,
+                        ext="json" if c.get("json_schema") else "graphql", tokens=False) for c in cases]
     log(f"[C06] {len(base)} valid base operations, {len(cases)} invalid documents")
     resps = generate(reqs, progress=20000)
     outcomes = {}
@@ -174,8 +179,9 @@ def run(tier):
         q = gql.render_doc(c["doc"])
         st = r["status"]
         outcomes[st] = outcomes.get(st, 0) + 1
-        distinct.add((c["edit"].replace("_first", ""), c["where"], c["base"], json.dumps(c.get("opts"), sort_keys=True)))
-        label = {"schema": c["schema"], "edit": c["edit"], "where": c["where"], "query": q, "options": c.get("opts") or "default"}
+        distinct.add((c["edit"].replace("_first", ""), c["where"], c["base"], json.dumps(c.get("opts"), sort_keys=True), bool(c.get("json_schema"))))
+        label = {"schema": c["schema"], "schema_format": "introspection JSON" if c.get("json_schema") else "SDL", "edit": c["edit"], "where": c["where"], "query": q,
+                 "options": c.get("opts") or "default"}
         if st == "ok":
             sigs = set()
             if c["edit"] == "missing_subselection":
@@ -201,7 +207,7 @@ def run(tier):
                 "unknown / impossible type condition, __typename removed from an abstract selection, extra subscription root "
                 "field, anonymous operation, missing root type) at one selection set; only edits the reference validator "
                 "confirms as invalid are counted; up to 60 (thorough 600) instances per edit kind are repeated under three other "
-                "option sets (other-variant + rust normalization; deny + skip-none; derive mode); distinct = (edit kind, position, "
+                "option sets (other-variant + rust normalization; deny + skip-none; derive mode) and with the schema as introspection JSON; distinct = (edit kind, position, "
                 "base operation, option set)",
         "base_operations": len(base), "edits_not_invalidating_skipped": not_invalidating,
         "distinct_outcomes": outcomes, "exhaustive": False,
